@@ -270,6 +270,9 @@ def family_alloc(m, tier, add_bench, open_mod, close_mod):
     add_bench(m, path, 4, "exact_t1", form="bencher", bencher_style="alloc_exact", body="quiet", options=[("sample_count", "3"), ("sample_size", "4")])
     add_bench(m, path, 4, "exact_t2", form="bencher", bencher_style="alloc_exact", body="quiet", options=[("sample_count", "4"), ("sample_size", "2"), ("threads", "2")])
     add_bench(m, path, 4, "exact_tuned", form="bencher", bencher_style="alloc_exact", body="quiet", options=[("sample_count", "2")], cost=30000)
+    # rows that exist without a peak: a timed section that only frees / only shrinks
+    add_bench(m, path, 4, "free_only", form="bencher", bencher_style="values_free_only", body="quiet", options=[("sample_count", "3"), ("sample_size", "2")])
+    add_bench(m, path, 4, "shrink_only", form="bencher", bencher_style="refs_shrink_only", body="quiet", options=[("sample_count", "2"), ("sample_size", "3"), ("threads", "[1, 2]")])
     close_mod(m, 0)
 
 
